@@ -270,6 +270,8 @@ def finalise(report, level, level_checker_cmd):
             lemmas=report.lemmas,
             bounded_standins=[{k: v for k, v in s.items() if k != 'failures'} | {'failures': len(s['failures'])}
                               for s in report.standins],
+            programs=max(1, sum(s['evaluations'] for s in report.standins)),
+            disagreements_checked=sum(len(s['failures']) for s in report.standins),
             evaluations=max(1, sum(s['evaluations'] for s in report.standins) or total),
             distinct_nontrivial=max(2, sum(s['distinct_nontrivial'] for s in report.standins) or disch),
             rule='obligations are generated from the current /repo sources by vf/pyvc; stand-in cases per their own rule',
